@@ -130,14 +130,47 @@ def guardFeatures (g : Glyph) : List String :=
    then ["advance-subnormal"] else []) ++
   (if g.contours.any (fun c => c.points.isEmpty) then ["empty-contour"] else [])
 
-/-- explain a difference by the guard it falls under, if any -/
-def explain (g : Glyph) (aspect : String) : String :=
-  let gf := guardFeatures g
-  if (aspect = "lib" ∨ aspect = "objlib") ∧ gf.contains "lib-newline" then "lib-newline"
-  else if (aspect = "lib" ∨ aspect = "objlib") ∧ gf.contains "lib-blank-string" then "lib-blank-string"
-  else if aspect = "note" ∧ gf.contains "note-trim" then "note-trim"
-  else if aspect = "advance" ∧ gf.contains "advance-subnormal" then "advance-subnormal"
-  else if (aspect = "contour" ∨ aspect = "objlib") ∧ gf.contains "empty-contour" then "empty-contour"
-  else aspect
+/-- what the recorded findings say comes back instead of `g` (and nothing else): the note as `trim_text(true)` leaves
+    it, the advance through the `is_normal` gate, contours without points gone (the others in order, untouched), every
+    lib re-indented after newlines for the indent string `ind`.  A known finding matches ONLY a result equal to this. -/
+def recorded (ind : Str) (g : Glyph) : Glyph :=
+  let ri : Option Dict → Option Dict := fun o => o.map (reindentDict ind)
+  { g with
+    note := (match g.note with
+      | some n => if (trimText n).isEmpty then none else some (trimText n)
+      | none => none)
+    width := (if isNormal g.width || isNormal g.height then (if nonZero g.width then g.width else 0) else 0)
+    height := (if isNormal g.width || isNormal g.height then (if nonZero g.height then g.height else 0) else 0)
+    lib := reindentDict ind g.lib
+    anchors := g.anchors.map (fun a => { a with lib := ri a.lib })
+    guidelines := g.guidelines.map (fun a => { a with lib := ri a.lib })
+    components := g.components.map (fun a => { a with lib := ri a.lib })
+    contours := (g.contours.filter (fun c => !c.points.isEmpty)).map (fun c =>
+      { c with lib := ri c.lib, points := c.points.map (fun p => { p with lib := ri p.lib }) }) }
+
+/-- which recorded losses actually change `g` (the features a known finding is matched by) -/
+def recordedFeatures (eqLib : Dict → Dict → Bool) (ind : Str) (g : Glyph) : List String :=
+  let r := recorded ind g
+  (if r.note = g.note then [] else ["note-trim"]) ++
+  (if closeNum r.width g.width && closeNum r.height g.height then [] else ["advance-subnormal"]) ++
+  (if g.contours.any (fun c => c.points.isEmpty) then ["empty-contour"] else []) ++
+  (if (allLibs g).all (fun l => eqLib (reindentDict ind l) l) then [] else ["lib-newline"])
+
+/-- the verdict on `h = parse(encode(g))`: no failure, the recorded findings (exactly), or the aspects in which `h`
+    differs even from what the findings allow; with empty contours in `g` a contour difference is named
+    `contours-after-empty` -/
+def verdict (eqLib : Dict → Dict → Bool) (ind : Str) (g h : Glyph) : List String :=
+  if (diff eqLib g h).isEmpty then []
+  else
+    let d2 := diff eqLib (recorded ind g) h
+    if d2.isEmpty then recordedFeatures eqLib ind g
+    else d2.map (fun a => if (a = "contour" ∨ a = "objlib") ∧ g.contours.any (fun c => c.points.isEmpty) then "contours-after-empty" else a)
+
+/-- the verdict on two results of the same glyph under different options -/
+def optionsVerdict (eqLib : Dict → Dict → Bool) (ind0 ind : Str) (g h0 h : Glyph) : List String :=
+  let d := diff eqLib h0 h
+  if d.isEmpty then []
+  else if (diff eqLib (recorded ind0 g) h0).isEmpty && (diff eqLib (recorded ind g) h).isEmpty then ["lib-newline"]
+  else d
 
 end Glif.Spec02
